@@ -826,7 +826,9 @@ where
                 .copy_from_slice(&new_cell.full_data());
             *old_cell.metadata_mut() = *new_cell.metadata();
 
-            self.free_space_pointer_down(free_bytes);
+            // The bytes we gain are a hole behind the shrunk cell, not room in front of the
+            // lowest one: the free space pointer stays where it is (moving it made the next
+            // insert overwrite the head of the lowest cell) and defragmentation reclaims the hole.
             self.add_free_space(free_bytes);
 
             return Ok(owned_cell);
